@@ -110,7 +110,7 @@ def split_with_escape(
                         count_of_double_escape_characters = count_of_trailing_escape_characters // 2  # for compatibility with python 3.7
                         if count_of_double_escape_characters:
                             # Trim double escape charaters before delimiter
-                            separated_items[start_from_item+i] = item[:-count_of_double_escape_characters*2] + '\\'*count_of_double_escape_characters
+                            separated_items[start_from_item+i] = item[:-count_of_double_escape_characters*2] + escape_character*count_of_double_escape_characters
                     if count_of_trailing_escape_characters % 2:
                         # Odd count_of_trailing_escape_characters, so last escape charater terminates delimiter
                         separated_items[start_from_item+i] = item[:-1] + delimiter + separated_items.pop(start_from_item+i+1)
@@ -124,7 +124,7 @@ def split_with_escape(
                     count_of_double_escape_characters = count_of_trailing_escape_characters // 2
                     if count_of_double_escape_characters:
                         # Trim double escape charaters of the last element, like it was done for previous elements
-                        separated_items[-1] = separated_items[-1][:-count_of_double_escape_characters*2] + '\\'*count_of_double_escape_characters
+                        separated_items[-1] = separated_items[-1][:-count_of_double_escape_characters*2] + escape_character*count_of_double_escape_characters
                 break # no more/no one trailing escape charaters found
     return separated_items
 # ******************************************************************************
